@@ -1,8 +1,9 @@
 import Ledger.Proofs.InterpDst
+import Ledger.Proofs.InterpAllotBase
 
 /-!
-`dst_sim` / `kd_sim` / `inorder_sim`: the simulation of kept-free, allotment-free
-destinations, by mutual structural induction.
+`dst_sim` / `kd_sim` / `inorder_sim` / `allotdst_sim`: the simulation of kept-free
+destinations (account, in-order, allotment), by mutual structural induction.
 -/
 namespace Ledger.Interp
 open Ledger.Machine
@@ -19,24 +20,58 @@ theorem sendInOrder_zero {env ienv : Env} (heq : EnvEq env ienv) (henv : EnvOK e
     obtain ⟨hlm, cap, hcap, _⟩ := okCap_spec hwf.1.1
     simp [sendInOrder, hc, evalMonOf_agree heq henv hlm hcap]
 
-theorem sendTo_zero {env ienv : Env} (heq : EnvEq env ienv) (henv : EnvOK env) {c : String}
-    (d : Dest) (hwf : dstWf env c d = true) (ist : IState) (hc : ist.asset = c) :
-    Interp.sendTo ienv d 0 ist = .ok ist := by
-  cases d with
-  | account e =>
-    obtain ⟨hl, a, ha, _⟩ := okAcct_spec (by simpa [dstWf] using hwf)
-    simp [Interp.sendTo, evalAcct_agree heq henv hl ha, pushReceiver]
-  | inorder items remaining =>
-    simp only [dstWf, Bool.and_eq_true] at hwf
-    simp [Interp.sendTo, sendInOrder_zero heq henv items hwf.1 ist hc]
-  | allot items => simp [dstWf] at hwf
+theorem AllotDstList.portions_length : (items : AllotDstList) → items.portions.length = items.length
+  | .nil => rfl
+  | .cons _ _ rest => by
+    simp [AllotDstList.portions, AllotDstList.length, AllotDstList.portions_length rest]
 
-theorem sendKD_zero {env ienv : Env} (heq : EnvEq env ienv) (henv : EnvOK env) {c : String}
-    (d : KeptOrDest) (hwf : kdWf env c d = true) (ist : IState) (hc : ist.asset = c) :
-    sendKD ienv d 0 ist = .ok ist := by
-  cases d with
-  | kept => simp [kdWf] at hwf
-  | to d => simpa [sendKD] using sendTo_zero heq henv d (by simpa [kdWf] using hwf) ist hc
+mutual
+  theorem sendTo_zero {env ienv : Env} (heq : EnvEq env ienv) (henv : EnvOK env) {c : String} :
+      (d : Dest) → dstWf env c d = true → ∀ (ist : IState), ist.asset = c →
+      Interp.sendTo ienv d 0 ist = .ok ist
+    | .account e, hwf, ist, _ => by
+      obtain ⟨hl, a, ha, _⟩ := okAcct_spec (by simpa [dstWf] using hwf)
+      simp [Interp.sendTo, evalAcct_agree heq henv hl ha, pushReceiver]
+    | .inorder items remaining, hwf, ist, hc => by
+      simp only [dstWf, Bool.and_eq_true] at hwf
+      simp [Interp.sendTo, sendInOrder_zero heq henv items hwf.1 ist hc]
+    | .allot items, hwf, ist, hc => by
+      simp only [dstWf, Bool.and_eq_true] at hwf
+      obtain ⟨a, hm, _, _, hi⟩ := makeAllotment_agree ienv hwf.1
+      have hlen : (allocate a 0).length = items.length := by
+        rw [allocate_length_eq, makeAllotment_length hm, AllotDstList.portions_length]
+      simp only [Interp.sendTo, hi 0]
+      exact sendAllot_zero heq henv items hwf.2 (allocate a 0) hlen (allocate_zero a) ist hc
+  theorem sendKD_zero {env ienv : Env} (heq : EnvEq env ienv) (henv : EnvOK env) {c : String} :
+      (d : KeptOrDest) → kdWf env c d = true → ∀ (ist : IState), ist.asset = c →
+      sendKD ienv d 0 ist = .ok ist
+    | .kept, hwf, _, _ => by simp [kdWf] at hwf
+    | .to d, hwf, ist, hc => by
+      simpa [sendKD] using sendTo_zero heq henv d (by simpa [kdWf] using hwf) ist hc
+  theorem sendAllot_zero {env ienv : Env} (heq : EnvEq env ienv) (henv : EnvOK env) {c : String} :
+      (items : AllotDstList) → allotDstWf env c items = true → ∀ (ps : List Int),
+      ps.length = items.length → (∀ p ∈ ps, p = 0) → ∀ (ist : IState), ist.asset = c →
+      sendAllot ienv items ps ist = .ok ist
+    | .nil, _, ps, _, _, ist, _ => by simp [sendAllot]
+    | .cons _ d rest, hwf, ps, hlen, hz, ist, hc => by
+      simp only [allotDstWf, Bool.and_eq_true] at hwf
+      cases ps with
+      | nil => simp [AllotDstList.length] at hlen
+      | cons p ps =>
+        have hp : p = 0 := hz p (by simp)
+        subst hp
+        simp only [sendAllot, sendKD_zero heq henv d hwf.1 ist hc]
+        exact sendAllot_zero heq henv rest hwf.2 ps (by simpa [AllotDstList.length] using hlen)
+          (fun q hq => hz q (by simp [hq])) ist hc
+end
+
+theorem list_sum_nonneg (ps : List Int) (h : ∀ p ∈ ps, 0 ≤ p) : 0 ≤ ps.sum := by
+  induction ps with
+  | nil => simp
+  | cons p ps ih =>
+    have := h p (by simp)
+    have := ih (fun q hq => h q (by simp [hq]))
+    simp; omega
 
 theorem zeroHead_reverse_units (ps : List Part) (a : Int) : units (zeroHead ps a).reverse = [] := by
   unfold zeroHead
@@ -71,7 +106,16 @@ mutual
           rw [← h4, hz, sendKD_zero heq henv remaining hwf.2 ist1 h5.asset] at k4
           cases k4; rfl
         · rw [if_neg hz, h4]; exact k4
-    | .allot items, hwf, _, _, _, _, _, _, _ => by simp [dstWf] at hwf
+    | .allot items, hwf, f, Z, st, ist, hn, hd, hq => by
+      simp only [dstWf, Bool.and_eq_true] at hwf
+      obtain ⟨a, hm, hsum, hpos, hi⟩ := makeAllotment_agree ienv hwf.1
+      have h0 := total_nonneg f hn
+      have hlen : (allocate a (total f)).length = items.length := by
+        rw [allocate_length_eq, makeAllotment_length hm, AllotDstList.portions_length]
+      obtain ⟨rem, st', ist', k1, k2, k3, k4, k5, k6⟩ :=
+        allotdst_sim heq henv hvc items hwf.2 (allocate a (total f)) f Z st ist hlen
+          (allocate_mem_nonneg a _ hsum h0 hpos) (allocate_sum_eq a _ hsum) hn hd hq
+      exact ⟨rem, st', ist', by simp [evalDest, hm, k1], k2, k3, by simp [Interp.sendTo, hi, k4], k5, k6⟩
   theorem kd_sim {env ienv : Env} (heq : EnvEq env ienv) (henv : EnvOK env)
       {P : List (String × String)} {c : String} (hvc : validAsset c = true) :
       (d : KeptOrDest) → kdWf env c d = true →
@@ -148,6 +192,51 @@ mutual
             simpa using i3
           · rw [if_neg hm0, k4]
             exact i3
+  theorem allotdst_sim {env ienv : Env} (heq : EnvEq env ienv) (henv : EnvOK env)
+      {P : List (String × String)} {c : String} (hvc : validAsset c = true) :
+      (items : AllotDstList) → allotDstWf env c items = true →
+      ∀ (ps : List Int) (f : List Part) (Z : List String) (st : State) (ist : IState),
+        ps.length = items.length → (∀ p ∈ ps, 0 ≤ p) → ps.sum = total f → partsNonneg f →
+        DRel P c st ist → units ist.queue = units f ++ Z →
+      ∃ rem st' ist', evalAllotDst env c items ps f st = .ok (rem, st') ∧ partsNonneg rem ∧
+        units rem = [] ∧ sendAllot ienv items ps ist = .ok ist' ∧ DRel P c st' ist' ∧
+        units ist'.queue = Z
+    | .nil, _, ps, f, Z, st, ist, hlen, _, hsum, hn, hd, hq => by
+      have hps : ps = [] := List.eq_nil_of_length_eq_zero (by simpa [AllotDstList.length] using hlen)
+      subst hps
+      have hu : units f = [] := units_eq_nil_of_total_zero f hn (by simpa using hsum.symm)
+      exact ⟨f, st, ist, by simp [evalAllotDst], hn, hu, by simp [sendAllot], hd, by simpa [hu] using hq⟩
+    | .cons _ d rest, hwf, ps, f, Z, st, ist, hlen, hnn, hsum, hn, hd, hq => by
+      simp only [allotDstWf, Bool.and_eq_true] at hwf
+      cases ps with
+      | nil => simp [AllotDstList.length] at hlen
+      | cons p ps =>
+        have hp0 : 0 ≤ p := hnn p (by simp)
+        have hrest0 := list_sum_nonneg ps (fun q hq => hnn q (by simp [hq]))
+        simp only [List.sum_cons] at hsum
+        have hs := (take_isSome_iff f hn p hp0).mpr (by omega)
+        obtain ⟨⟨res, rem⟩, ht⟩ := Option.isSome_iff_exists.mp hs
+        obtain ⟨nres, nrem⟩ := take_nonneg ht hn
+        obtain ⟨ures, urem⟩ := take_units hn ht
+        have htres : total res = p := take_total ht
+        have hsplit := take_total_split ht
+        obtain ⟨r, st1, ist1, k1, k2, k3, k4, k5, k6⟩ :=
+          kd_sim heq henv hvc d hwf.1 res (units rem ++ Z) st ist nres hd
+            (by rw [hq, ures, urem, ← List.append_assoc, List.take_append_drop])
+        have hr0 : total r = 0 := by rw [total_eq_length r k2, k3]; rfl
+        have hn' : partsNonneg (concatParts r rem) := concatParts_nonneg _ _ k2 nrem
+        have hu' : units (concatParts r rem) = units rem := by
+          rw [concatParts_units _ _ k2 nrem, k3]; rfl
+        have htot' : ps.sum = total (concatParts r rem) := by
+          rw [concatParts_total, hr0]; omega
+        obtain ⟨rem2, st2, ist2, i1, i2, i3, i4, i5, i6⟩ :=
+          allotdst_sim heq henv hvc rest hwf.2 ps (concatParts r rem) Z st1 ist1
+            (by simpa [AllotDstList.length] using hlen) (fun q hq => hnn q (by simp [hq])) htot' hn' k5
+            (by rw [k6, hu'])
+        refine ⟨rem2, st2, ist2, ?_, i2, i3, ?_, i5, i6⟩
+        · simp only [evalAllotDst, ht, k1]; exact i1
+        · rw [htres] at k4
+          simp only [sendAllot, k4]; exact i4
 end
 
 end Ledger.Interp
